@@ -156,7 +156,17 @@ def resume_all(ctx: Ctx) -> None:
         for src, dst in computed_edges:
             facts = _edge_facts(cfg, src, dst)
             # an output without target is skipped, not accepted
-            if any((pol and "target is None" in unparse(t)) or ((not pol) and "target is not None" in unparse(t)) for t, pol in facts):
+            def _no_target(t, pol) -> bool:
+                # `<the output's target> is None` (true) / `... is not None` (false), where the
+                # variable was read from the node's "target" entry
+                if not (isinstance(t, ast.Compare) and len(t.ops) == 1 and isinstance(t.left, ast.Name) and isinstance(t.comparators[0], ast.Constant) and t.comparators[0].value is None):
+                    return False
+                if not ((isinstance(t.ops[0], ast.Is) and pol) or (isinstance(t.ops[0], ast.IsNot) and not pol)):
+                    return False
+                ds = fl.rdefs(t.left.id, src)
+                return bool(ds) and all(d_.value is not None and any(isinstance(c_, ast.Constant) and c_.value == "target" for c_ in ast.walk(d_.value)) for d_ in ds)
+
+            if any(_no_target(t, pol) for t, pol in facts):
                 continue
             accept_points.append((facts, cfg.nodes[src].stmt))
     else:
